@@ -7,8 +7,8 @@ Hand-written interpreter.  The data it runs on (`Graph`) is produced by
 What is transcribed (CPython 3.12, `importlib/_bootstrap.py`, `ceval` IMPORT_NAME / IMPORT_FROM /
 `import_all_from`):
 
-* `sys.modules` as a per-module `Status` (`absent`, `init` = present but still executing its body,
-  `done`), and one namespace per module (`ns`, an association list name ↦ `Val` with unique keys);
+* `sys.modules`: a module is *absent*, *present but still executing its body*, or *done*;
+  one namespace per module (which names are bound, and for names bound to a module: which module);
 * `_find_and_load`: a module found in `sys.modules` is returned as it is, even half initialised;
   otherwise the parent package is imported first, the module is looked for again ("crazy side effects"),
   the parent must have `__path__`, the module must exist, its body is executed with the module already
@@ -26,6 +26,15 @@ What is transcribed (CPython 3.12, `importlib/_bootstrap.py`, `ceval` IMPORT_NAM
 
 Exceptions are values (`Err`), never defaults.  Recursion is on an explicit fuel (nesting depth of imports
 and `try` blocks); running out of fuel is the error `outOfFuel`, which no handler catches.
+
+## Representation
+
+The table theorems of `Props/C01.lean` run this interpreter inside the Lean kernel (`decide +kernel`), which
+evaluates list programs at roughly 10⁴ steps per second but has GMP arithmetic on `Nat` literals.  The state is
+therefore a handful of bit matrices held in natural numbers (row = module id, column = identifier id):
+`lo`/`hi` say which names are bound (identifiers below `nRel` are the ones some event of the graph looks up;
+the others live in `hi`, which the kernel never has to force), `isMod` marks names bound to a module and `vals`
+holds which module (12 bit fields).  `Mat.get/set/row/orRow/…` are the only functions that touch bits.
 Core Lean only.
 -/
 namespace Ioflo.Imports
@@ -47,20 +56,21 @@ inductive Catch where
   | importError | moduleNotFound | attributeError | nameError | all
   deriving DecidableEq, Repr
 
-/-- what a name is bound to: an opaque object, a module, or (for `__all__`) a literal list of names -/
+/-- what a name is bound to: an opaque object or a module -/
 inductive Val where
   | obj
   | mod (m : Mod)
-  | names (l : List Name)
   deriving DecidableEq, Repr
 
-/-- import-time events of a module body, in execution order -/
+/-- import-time events of a module body, in execution order.  `chain` = target module :: its proper
+ancestors, nearest first.  `defs rel other`: plain bindings (assignments, `def`, `class`) of consecutive
+statements; `rel` are the names some event of the graph looks up, `other` the rest. -/
 inductive Ev where
-  | imp (line : Nat) (target : Mod) (bind : Option Name) (asTarget : Bool)
-  | from_ (line : Nat) (target : Mod) (items : List (Name × Option Name × Mod))
-  | star (line : Nat) (target : Mod)
+  | imp (line : Nat) (chain : List Mod) (bind : Option Name) (asTarget : Bool)
+  | from_ (line : Nat) (chain : List Mod) (items : List (Name × Option Name × Mod))
+  | star (line : Nat) (chain : List Mod)
   | use (line : Nat) (root : Name) (path : List Name)
-  | def_ (n : Name)
+  | defs (rel : List Name) (other : List Name)
   | defMod (n : Name) (m : Mod)
   | defAll (l : List Name)
   | del_ (line : Nat) (n : Name)
@@ -71,45 +81,39 @@ inductive Ev where
 
 structure Node where
   parent : Option Mod
-  /-- proper ancestors, nearest first -/
-  anc : List Mod
   /-- last component of the dotted name: the attribute name under the parent -/
   last : Name
   /-- a finder locates it (source file, package directory, stdlib module, …) -/
   exists_ : Bool
-  isPkg : Bool
   /-- a module of the tree under test -/
   ioflo : Bool
-  /-- names the loader binds before the body runs (`__name__`, `__file__`, …, `__path__` for packages);
-  empty for non-ioflo modules, whose measured bodies list all their names -/
+  /-- names the loader binds before the body runs (`__name__`, `__file__`, …, `__path__` for packages), split like
+  `Ev.defs` into looked-up and other names; empty for non-ioflo modules, whose measured bodies list all their names -/
   init : List Name
+  initOther : List Name
   body : List Ev
 
 structure Graph where
-  nodes : List Node
+  /-- node table in chunks of `chunk` consecutive ids -/
+  nodes : List (List Node)
+  chunk : Nat
+  nNodes : Nat
   /-- present in `sys.modules` of a newly started interpreter -/
   preloaded : List Mod
-  builtins : List Name
-  /-- identifier ids below this start with an underscore -/
-  nPrivate : Nat
+  /-- bit n: identifier n is a builtin -/
+  builtins : Nat
+  /-- identifiers below `nMN` may be bound to modules; below `nRel` are looked up by some event -/
+  nMN : Nat
+  nRel : Nat
+  /-- number of identifiers from `nRel` on -/
+  nHi : Nat
+  /-- bit n: identifier n (< nRel) does not start with an underscore; likewise for identifier `nRel + n` -/
+  publicLo : Nat
+  publicHi : Nat
   pathName : Name
   allName : Name
   /-- the modules the property quantifies over -/
   domain : List Mod
-
-inductive Status where
-  | absent | init | done
-  deriving DecidableEq, Repr
-
-abbrev Ns := List (Name × Val)
-
-structure MSt where
-  status : Status
-  ns : Ns
-  deriving DecidableEq
-
-/-- the interpreter state: one entry per module id -/
-abbrev State := List MSt
 
 structure Err where
   exc : Exc
@@ -118,91 +122,183 @@ structure Err where
   line : Nat
   deriving DecidableEq, Repr
 
+/-! ## bit matrices -/
+
+/-- all-ones mask of `w` bits -/
+def ones (w : Nat) : Nat := 2 ^ w - 1
+
+namespace Mat
+
+/-- entry (m, n) of a matrix with `w` columns -/
+def get (M w m n : Nat) : Bool := n < w && M.testBit (m * w + n)
+
+def set (M w m n : Nat) : Nat := if n < w then M ||| (1 <<< (m * w + n)) else M
+
+/-- row m as a `w` bit mask -/
+def row (M w m : Nat) : Nat := (M >>> (m * w)) &&& ones w
+
+/-- clear the entries of row m selected by `mask` -/
+def clearMask (M w m mask : Nat) : Nat := M ^^^ ((row M w m &&& mask) <<< (m * w))
+
+def clear (M w m n : Nat) : Nat := if n < w then clearMask M w m (1 <<< n) else M
+
+def clearRow (M w m : Nat) : Nat := M ^^^ (row M w m <<< (m * w))
+
+/-- set the entries of row m selected by `mask` -/
+def orRow (M w m mask : Nat) : Nat := M ||| ((mask &&& ones w) <<< (m * w))
+
+end Mat
+
+/-- bit mask of a list of column indices shifted down by `off` (indices below `off` are ignored) -/
+def maskOf (off : Nat) : List Name → Nat → Nat
+  | [], acc => acc
+  | n :: ns, acc => maskOf off ns (if off ≤ n then acc ||| (1 <<< (n - off)) else acc)
+
+/-! ## state -/
+
+/-- width of a `vals` field -/
+def valBits : Nat := 12
+
+structure State where
+  /-- bit m: module m is in `sys.modules` -/
+  present : Nat
+  /-- bit m: its body has finished -/
+  done : Nat
+  /-- bound names, identifiers `< nRel`: `nRel` columns -/
+  lo : Nat
+  /-- bound names, identifiers `≥ nRel`: `nHi` columns -/
+  hi : Nat
+  /-- bound to a module, identifiers `< nMN`: `nMN` columns -/
+  isMod : Nat
+  /-- which module: field (m * nMN + n) of `valBits` bits (meaningful where `isMod` is set) -/
+  vals : Nat
+  /-- literal `__all__` lists -/
+  alls : List (Mod × List Name)
+
 abbrev Res := State × Option Err
 
-/-! ## namespaces -/
+def State.isPresent (s : State) (m : Mod) : Bool := s.present.testBit m
 
-def nsGet : Ns → Name → Option Val
-  | [], _ => none
-  | (k, v) :: rest, n => if k = n then some v else nsGet rest n
+def State.isDone (s : State) (m : Mod) : Bool := s.done.testBit m
 
-/-- bind `n`: replace an existing entry in place, else append -/
-def nsSet : Ns → Name → Val → Ns
-  | [], n, v => [(n, v)]
-  | (k, w) :: rest, n, v => if k = n then (k, v) :: rest else (k, w) :: nsSet rest n v
+/-- is name `n` bound in module `m`? -/
+def State.bound (g : Graph) (s : State) (m : Mod) (n : Name) : Bool :=
+  if n < g.nRel then Mat.get s.lo g.nRel m n else Mat.get s.hi g.nHi m (n - g.nRel)
 
-def nsDel : Ns → Name → Ns
-  | [], _ => []
-  | (k, w) :: rest, n => if k = n then rest else (k, w) :: nsDel rest n
+def State.field (g : Graph) (s : State) (m : Mod) (n : Name) : Nat :=
+  (s.vals >>> ((m * g.nMN + n) * valBits)) &&& ones valBits
 
-/-! ## state access -/
+/-- `getattr(module m, n)` / a load of global `n` in module `m` -/
+def State.val (g : Graph) (s : State) (m : Mod) (n : Name) : Option Val :=
+  if s.bound g m n then
+    if Mat.get s.isMod g.nMN m n then some (.mod (s.field g m n)) else some .obj
+  else none
 
-def absentSt : MSt := ⟨.absent, []⟩
+/-- bind `n` to an opaque object in module `m` -/
+def State.bindObj (g : Graph) (s : State) (m : Mod) (n : Name) : State :=
+  if n < g.nRel then
+    { s with lo := Mat.set s.lo g.nRel m n,
+             isMod := if Mat.get s.isMod g.nMN m n then Mat.clear s.isMod g.nMN m n else s.isMod }
+  else { s with hi := Mat.set s.hi g.nHi m (n - g.nRel) }
 
-def State.get (s : State) (m : Mod) : MSt :=
-  match s[m]? with
-  | some x => x
-  | none => absentSt
+/-- can `n ↦ module t` be represented? (the translator numbers identifiers so that it always can) -/
+def Graph.modBindable (g : Graph) (n : Name) (t : Mod) : Bool := n < g.nMN && n < g.nRel && t < 2 ^ valBits
 
-def State.present (s : State) (m : Mod) : Bool := (s.get m).status ≠ .absent
+/-- bind `n` to module `t` in module `m` (callers check `modBindable`) -/
+def State.bindMod (g : Graph) (s : State) (m : Mod) (n : Name) (t : Mod) : State :=
+  let off := (m * g.nMN + n) * valBits
+  { s with lo := Mat.set s.lo g.nRel m n,
+           isMod := Mat.set s.isMod g.nMN m n,
+           vals := (s.vals ^^^ (s.field g m n <<< off)) ||| (t <<< off) }
 
-def State.put (s : State) (m : Mod) (x : MSt) : State := s.set m x
+/-- `setattr(module m, n, v)`; `none` when the value cannot be represented -/
+def State.bind (g : Graph) (s : State) (m : Mod) (n : Name) : Val → Option State
+  | .obj => some (s.bindObj g m n)
+  | .mod t => if g.modBindable n t then some (s.bindMod g m n t) else none
 
-/-- `setattr(module, n, v)` / a store into the module's globals -/
-def State.bind (s : State) (m : Mod) (n : Name) (v : Val) : State :=
-  let x := s.get m
-  s.put m ⟨x.status, nsSet x.ns n v⟩
+def State.unbind (g : Graph) (s : State) (m : Mod) (n : Name) : State :=
+  if n < g.nRel then
+    { s with lo := Mat.clear s.lo g.nRel m n,
+             isMod := if Mat.get s.isMod g.nMN m n then Mat.clear s.isMod g.nMN m n else s.isMod }
+  else { s with hi := Mat.clear s.hi g.nHi m (n - g.nRel) }
 
-def State.attr (s : State) (m : Mod) (n : Name) : Option Val := nsGet (s.get m).ns n
+/-- bind all `rel` and `other` names to objects in module `m` -/
+def State.bindObjs (g : Graph) (s : State) (m : Mod) (rel other : List Name) : State :=
+  let mlo := maskOf 0 rel 0
+  { s with lo := Mat.orRow s.lo g.nRel m mlo,
+           hi := Mat.orRow s.hi g.nHi m (maskOf g.nRel other 0),
+           isMod := Mat.clearMask s.isMod g.nMN m (mlo &&& ones g.nMN) }
+
+def State.allOf (s : State) (m : Mod) : Option (List Name) :=
+  match s.alls.find? (fun p => p.1 == m) with
+  | some p => some p.2
+  | none => none
+
+/-- enter `m` into `sys.modules` with an empty namespace -/
+def State.enter (s : State) (m : Mod) : State := { s with present := s.present ||| (1 <<< m) }
+
+def State.finish (s : State) (m : Mod) : State := { s with done := s.done ||| (1 <<< m) }
+
+/-- `del sys.modules[m]`: the failed module and its namespace disappear -/
+def State.remove (g : Graph) (s : State) (m : Mod) : State :=
+  { present := if s.present.testBit m then s.present ^^^ (1 <<< m) else s.present,
+    done := if s.done.testBit m then s.done ^^^ (1 <<< m) else s.done,
+    lo := Mat.clearRow s.lo g.nRel m,
+    hi := Mat.clearRow s.hi g.nHi m,
+    isMod := Mat.clearRow s.isMod g.nMN m,
+    vals := s.vals,
+    alls := s.alls.filter (fun p => p.1 != m) }
 
 /-! ## the graph -/
 
-def Graph.node? (g : Graph) (m : Mod) : Option Node := g.nodes[m]?
-
-def Graph.anc (g : Graph) (m : Mod) : List Mod :=
-  match g.node? m with
-  | some nd => nd.anc
-  | none => []
-
-/-- the top-level package of a dotted name -/
-def Graph.top (g : Graph) (m : Mod) : Mod :=
-  match (g.anc m).getLast? with
-  | some t => t
-  | none => m
+def Graph.node? (g : Graph) (m : Mod) : Option Node :=
+  if g.chunk = 0 then none else
+  match g.nodes[m / g.chunk]? with
+  | some c => c[m % g.chunk]?
+  | none => none
 
 /-- the pseudo module id of the importing host program (`python -c "import m"`) -/
-def Graph.main (g : Graph) : Mod := g.nodes.length
+def Graph.main (g : Graph) : Mod := g.nNodes
 
-/-- the names a module body binds itself (used for non-ioflo modules, whose bodies are measured) -/
-def ownNs (allName : Name) : List Ev → Ns → Ns
-  | [], ns => ns
-  | .def_ n :: es, ns => ownNs allName es (nsSet ns n .obj)
-  | .defMod n m :: es, ns => ownNs allName es (nsSet ns n (.mod m))
-  | .defAll l :: es, ns => ownNs allName es (nsSet ns allName (.names l))
-  | _ :: es, ns => ownNs allName es ns
-
-/-- namespace of a module before its first statement runs -/
-def initNs (nd : Node) : Ns := nd.init.foldl (fun ns n => nsSet ns n .obj) []
+/-- the plain bindings of a module body (non-ioflo modules: their measured names) -/
+def applyDefs (g : Graph) (m : Mod) : State → List Ev → Option State
+  | s, [] => some s
+  | s, .defs rel other :: es => applyDefs g m (s.bindObjs g m rel other) es
+  | s, .defMod n t :: es =>
+    if g.modBindable n t then applyDefs g m (s.bindMod g m n t) es else none
+  | s, .defAll l :: es =>
+    applyDefs g m { s.bindObj g m g.allName with alls := (m, l) :: s.alls.filter (fun p => p.1 != m) } es
+  | s, _ :: es => applyDefs g m s es
 
 /-- modules made present by the C or python body of a non-ioflo module (or by interpreter start-up):
-each one that is absent becomes `done` with its own measured names and is bound on its parent -/
-def extLoad (g : Graph) : State → List Mod → State
-  | s, [] => s
+each one that is absent becomes `done` with its own measured names and is bound on its parent.
+`none`: a binding that cannot be represented. -/
+def extLoad (g : Graph) : State → List Mod → Option State
+  | s, [] => some s
   | s, y :: ys =>
-    if s.present y then extLoad g s ys else
+    if s.isPresent y then extLoad g s ys else
     match g.node? y with
     | none => extLoad g s ys
     | some nd =>
-      let s := s.put y ⟨.done, ownNs g.allName nd.body []⟩
-      let s := match nd.parent with
-        | some p => if s.present p then s.bind p nd.last (.mod y) else s
-        | none => s
-      extLoad g s ys
+      match applyDefs g y ((s.enter y).finish y) nd.body with
+      | none => none
+      | some s =>
+        match nd.parent with
+        | some p =>
+          if s.isPresent p then
+            if g.modBindable nd.last y then extLoad g (s.bindMod g p nd.last y) ys else none
+          else extLoad g s ys
+        | none => extLoad g s ys
 
-def emptyState (g : Graph) : State := g.nodes.map (fun _ => absentSt)
+def emptyState : State := ⟨0, 0, 0, 0, 0, 0, []⟩
 
-/-- `sys.modules` of a newly started interpreter -/
-def fresh (g : Graph) : State := extLoad g (emptyState g) g.preloaded
+/-- `sys.modules` of a newly started interpreter (`none`: the generated data is not representable) -/
+def fresh? (g : Graph) : Option State := extLoad g emptyState g.preloaded
+
+def fresh (g : Graph) : State :=
+  match fresh? g with
+  | some s => s
+  | none => emptyState
 
 /-! ## exceptions -/
 
@@ -233,14 +329,17 @@ def runEvs (step : State → Ev → Res) : State → List Ev → Res
     | r => r
 
 /-- `_load_unlocked` + the `setattr` on the parent: `m` is absent, found by a finder, and its parent (if any) is present -/
-def loadOne (g : Graph) (run : State → Mod → List Ev → Res) (s : State) (m : Mod) (nd : Node) : Res :=
-  let s1 := s.put m ⟨.init, initNs nd⟩
+def loadOne (g : Graph) (run : State → Mod → List Ev → Res) (cur : Mod) (line : Nat)
+    (s : State) (m : Mod) (nd : Node) : Res :=
+  let s1 := (s.enter m).bindObjs g m nd.init nd.initOther
   match run s1 m nd.body with
-  | (s2, some err) => (s2.put m absentSt, some err)
+  | (s2, some err) => (s2.remove g m, some err)
   | (s2, none) =>
-    let s3 := s2.put m ⟨.done, (s2.get m).ns⟩
+    let s3 := s2.finish m
     match nd.parent with
-    | some p => (s3.bind p nd.last (.mod m), none)
+    | some p =>
+      if g.modBindable nd.last m then (s3.bindMod g p nd.last m, none)
+      else (s3, some ⟨.unknown, cur, line⟩)
     | none => (s3, none)
 
 /-- `_find_and_load(name)`; the list is `name :: proper ancestors (nearest first)`.
@@ -249,112 +348,149 @@ def findAndLoad (g : Graph) (run : State → Mod → List Ev → Res) (cur : Mod
     State → List Mod → Res
   | s, [] => (s, none)
   | s, m :: anc =>
-    if s.present m then (s, none) else
+    if s.isPresent m then (s, none) else
     let r : Res := match anc with
       | [] => (s, none)
-      | p :: _ => if s.present p then (s, none) else findAndLoad g run cur line s anc
+      | p :: _ => if s.isPresent p then (s, none) else findAndLoad g run cur line s anc
     match r with
     | (s, some err) => (s, some err)
     | (s, none) =>
-      if s.present m then (s, none) else
+      if s.isPresent m then (s, none) else
       let pathOk : Bool := match anc with
         | [] => true
-        | p :: _ => (s.attr p g.pathName).isSome
+        | p :: _ => s.bound g p g.pathName
       if !pathOk then (s, some ⟨.moduleNotFound m, cur, line⟩) else
       match g.node? m with
       | none => (s, some ⟨.moduleNotFound m, cur, line⟩)
       | some nd =>
         if !nd.exists_ then (s, some ⟨.moduleNotFound m, cur, line⟩) else
-        loadOne g run s m nd
+        loadOne g run cur line s m nd
 
-/-- `_handle_fromlist` for a package: names that are not attributes are tried as sub-modules -/
-def fromlist (g : Graph) (run : State → Mod → List Ev → Res) (cur : Mod) (line : Nat) (t : Mod) :
-    State → List (Name × Option Name × Mod) → Res
+/-- `_handle_fromlist` for a package `t` (`tchain` = t :: ancestors): names that are not attributes are
+tried as sub-modules -/
+def fromlist (g : Graph) (run : State → Mod → List Ev → Res) (cur : Mod) (line : Nat) (t : Mod)
+    (tchain : List Mod) : State → List (Name × Option Name × Mod) → Res
   | s, [] => (s, none)
   | s, (n, _, cand) :: rest =>
-    if (s.attr t n).isSome then fromlist g run cur line t s rest else
-    match findAndLoad g run cur line s (cand :: t :: g.anc t) with
-    | (s', none) => fromlist g run cur line t s' rest
+    if s.bound g t n then fromlist g run cur line t tchain s rest else
+    match findAndLoad g run cur line s (cand :: tchain) with
+    | (s', none) => fromlist g run cur line t tchain s' rest
     | (s', some err) =>
-      if err.exc = .moduleNotFound cand then fromlist g run cur line t s' rest else (s', some err)
+      if err.exc = .moduleNotFound cand then fromlist g run cur line t tchain s' rest else (s', some err)
 
 /-- IMPORT_FROM + STORE_NAME for every item -/
-def importFrom (cur : Mod) (line : Nat) (t : Mod) : State → List (Name × Option Name × Mod) → Res
+def importFrom (g : Graph) (cur : Mod) (line : Nat) (t : Mod) :
+    State → List (Name × Option Name × Mod) → Res
   | s, [] => (s, none)
   | s, (n, b, cand) :: rest =>
-    let v? : Option Val := match s.attr t n with
+    let v? : Option Val := match s.val g t n with
       | some v => some v
-      | none => if s.present cand then some (.mod cand) else none
+      | none => if s.isPresent cand then some (.mod cand) else none
     match v? with
     | none => (s, some ⟨.importError, cur, line⟩)
     | some v =>
       match b with
-      | some b => importFrom cur line t (s.bind cur b v) rest
-      | none => importFrom cur line t s rest
+      | none => importFrom g cur line t s rest
+      | some b =>
+        match s.bind g cur b v with
+        | some s' => importFrom g cur line t s' rest
+        | none => (s, some ⟨.unknown, cur, line⟩)
 
 /-- `import_all_from` with an `__all__` list -/
-def copyAll (cur : Mod) (line : Nat) (t : Mod) : State → List Name → Res
+def copyAll (g : Graph) (cur : Mod) (line : Nat) (t : Mod) : State → List Name → Res
   | s, [] => (s, none)
   | s, n :: rest =>
-    match s.attr t n with
+    match s.val g t n with
     | none => (s, some ⟨.attributeError, cur, line⟩)
-    | some v => copyAll cur line t (s.bind cur n v) rest
+    | some v =>
+      match s.bind g cur n v with
+      | some s' => copyAll g cur line t s' rest
+      | none => (s, some ⟨.unknown, cur, line⟩)
 
-/-- `import_all_from` without `__all__`: every public name bound so far -/
-def copyPublic (g : Graph) (cur : Mod) : State → Ns → State
-  | s, [] => s
-  | s, (n, v) :: rest =>
-    if n < g.nPrivate then copyPublic g cur s rest else copyPublic g cur (s.bind cur n v) rest
+/-- copy the `vals` fields of the columns in `mask` from row `t` to row `cur` (highest column first) -/
+def copyVals (g : Graph) (t cur : Mod) : Nat → State → Nat → State
+  | 0, s, _ => s
+  | f + 1, s, mask =>
+    if mask = 0 then s else
+    let n := mask.log2
+    let off := (cur * g.nMN + n) * valBits
+    copyVals g t cur f
+      { s with vals := (s.vals ^^^ (s.field g cur n <<< off)) ||| (s.field g t n <<< off) }
+      (mask ^^^ (1 <<< n))
+
+/-- `import_all_from` without `__all__`: every public name bound so far, with its value -/
+def copyPublic (g : Graph) (cur t : Mod) (s : State) : State :=
+  let rlo := Mat.row s.lo g.nRel t &&& g.publicLo
+  let rhi := Mat.row s.hi g.nHi t &&& g.publicHi
+  let mods := Mat.row s.isMod g.nMN t &&& rlo
+  let s1 : State :=
+    { s with lo := Mat.orRow s.lo g.nRel cur rlo,
+             hi := Mat.orRow s.hi g.nHi cur rhi,
+             isMod := Mat.orRow (Mat.clearMask s.isMod g.nMN cur (rlo &&& ones g.nMN)) g.nMN cur mods }
+  copyVals g t cur g.nMN s1 mods
 
 /-- evaluate `.a.b.c` on a value -/
-def walkAttrs (s : State) : Val → List Name → Bool
+def walkAttrs (g : Graph) (s : State) : Val → List Name → Bool
   | .mod m, p :: rest =>
-    match s.attr m p with
+    match s.val g m p with
     | none => false
-    | some v => walkAttrs s v rest
+    | some v => walkAttrs g s v rest
   | _, _ => true
+
+def chainTop : List Mod → Mod
+  | [] => 0
+  | [t] => t
+  | _ :: rest => chainTop rest
 
 def execEv (g : Graph) : Nat → Mod → State → Ev → Res
   | 0, cur, s, _ => (s, some ⟨.outOfFuel, cur, 0⟩)
   | f + 1, cur, s, ev =>
     let run : State → Mod → List Ev → Res := fun s m body => runEvs (execEv g f m) s body
     match ev with
-    | .imp line t bind asT =>
-      match findAndLoad g run cur line s (t :: g.anc t) with
+    | .imp line chain bind asT =>
+      match findAndLoad g run cur line s chain with
       | (s, some err) => (s, some err)
       | (s, none) =>
         match bind with
         | none => (s, none)
-        | some b => (s.bind cur b (.mod (if asT then t else g.top t)), none)
-    | .from_ line t items =>
-      match findAndLoad g run cur line s (t :: g.anc t) with
+        | some b =>
+          let t := if asT then chain.headD 0 else chainTop chain
+          if g.modBindable b t then (s.bindMod g cur b t, none) else (s, some ⟨.unknown, cur, line⟩)
+    | .from_ line chain items =>
+      match findAndLoad g run cur line s chain with
       | (s, some err) => (s, some err)
       | (s, none) =>
-        let r : Res := if (s.attr t g.pathName).isSome then fromlist g run cur line t s items else (s, none)
+        let t := chain.headD 0
+        let r : Res := if s.bound g t g.pathName then fromlist g run cur line t chain s items else (s, none)
         match r with
         | (s, some err) => (s, some err)
-        | (s, none) => importFrom cur line t s items
-    | .star line t =>
-      match findAndLoad g run cur line s (t :: g.anc t) with
+        | (s, none) => importFrom g cur line t s items
+    | .star line chain =>
+      match findAndLoad g run cur line s chain with
       | (s, some err) => (s, some err)
       | (s, none) =>
-        match s.attr t g.allName with
-        | some (.names l) =>
-          if (s.attr t g.pathName).isSome then (s, some ⟨.unknown, cur, line⟩) else copyAll cur line t s l
-        | some _ => (s, some ⟨.unknown, cur, line⟩)
-        | none => (copyPublic g cur s (s.get t).ns, none)
+        let t := chain.headD 0
+        if s.bound g t g.allName then
+          match s.allOf t with
+          | some l =>
+            if s.bound g t g.pathName then (s, some ⟨.unknown, cur, line⟩) else copyAll g cur line t s l
+          | none => (s, some ⟨.unknown, cur, line⟩)
+        else (copyPublic g cur t s, none)
     | .use line root path =>
-      match s.attr cur root with
-      | none => if g.builtins.contains root then (s, none) else (s, some ⟨.nameError, cur, line⟩)
-      | some v => if walkAttrs s v path then (s, none) else (s, some ⟨.attributeError, cur, line⟩)
-    | .def_ n => (s.bind cur n .obj, none)
-    | .defMod n m => (s.bind cur n (.mod m), none)
-    | .defAll l => (s.bind cur g.allName (.names l), none)
+      match s.val g cur root with
+      | none => if g.builtins.testBit root then (s, none) else (s, some ⟨.nameError, cur, line⟩)
+      | some v => if walkAttrs g s v path then (s, none) else (s, some ⟨.attributeError, cur, line⟩)
+    | .defs rel other => (s.bindObjs g cur rel other, none)
+    | .defMod n t =>
+      if g.modBindable n t then (s.bindMod g cur n t, none) else (s, some ⟨.unknown, cur, 0⟩)
+    | .defAll l =>
+      ({ s.bindObj g cur g.allName with alls := (cur, l) :: s.alls.filter (fun p => p.1 != cur) }, none)
     | .del_ line n =>
-      match s.attr cur n with
-      | none => (s, some ⟨.nameError, cur, line⟩)
-      | some _ => (s.put cur ⟨(s.get cur).status, nsDel (s.get cur).ns n⟩, none)
-    | .ext loads => (extLoad g s loads, none)
+      if s.bound g cur n then (s.unbind g cur n, none) else (s, some ⟨.nameError, cur, line⟩)
+    | .ext loads =>
+      match extLoad g s loads with
+      | some s' => (s', none)
+      | none => (s, some ⟨.unknown, cur, 0⟩)
     | .raise_ line exc => (s, some ⟨exc, cur, line⟩)
     | .unknown line => (s, some ⟨.unknown, cur, line⟩)
     | .try_ body hs orelse fin =>
@@ -369,15 +505,30 @@ def execEv (g : Graph) : Nat → Mod → State → Ev → Res
       | (s3, none) => (s3, r.2)
 
 /-- enough for any nesting of imports over this graph plus nested `try` blocks -/
-def Graph.fuel (g : Graph) : Nat := g.nodes.length + 16
+def Graph.fuel (g : Graph) : Nat := g.nNodes + 16
 
 /-- run a module body -/
 def runBody (g : Graph) (s : State) (m : Mod) (body : List Ev) : Res :=
   runEvs (execEv g g.fuel m) s body
 
-/-- the host program executes `import m` -/
-def importModule (g : Graph) (s : State) (m : Mod) : Res :=
-  findAndLoad g (runBody g) g.main 0 s (m :: g.anc m)
+/-- the host program executes `import m`, `chain` = m :: its ancestors -/
+def importChain (g : Graph) (s : State) (chain : List Mod) : Res :=
+  findAndLoad g (runBody g) g.main 0 s chain
+
+/-- `m :: proper ancestors`, following the parent pointers of the node table -/
+def Graph.chainOf (g : Graph) : Nat → Mod → List Mod
+  | 0, m => [m]
+  | f + 1, m =>
+    match g.node? m with
+    | some nd =>
+      match nd.parent with
+      | some p => m :: g.chainOf f p
+      | none => [m]
+    | none => [m]
+
+def Graph.chain (g : Graph) (m : Mod) : List Mod := g.chainOf 32 m
+
+def importModule (g : Graph) (s : State) (m : Mod) : Res := importChain g s (g.chain m)
 
 /-- import a list of modules one after the other; a failing import does not stop the host program
 (`try: import m except Exception`): the outcomes are collected -/
@@ -397,7 +548,7 @@ def bindsName (n : Name) : Ev → Bool
   | .imp _ _ (some b) _ => b = n
   | .from_ _ _ items => items.any (fun it => it.2.1 = some n)
   | .star _ _ => true
-  | .def_ k => k = n
+  | .defs rel other => rel.contains n || other.contains n
   | .defMod k _ => k = n
   | .try_ _ _ _ _ => true
   | _ => false
@@ -413,7 +564,7 @@ def staleFrom (g : Graph) (m : Mod) : Bool :=
   match g.node? m with
   | none => false
   | some nd => nd.body.any (fun e => match e with
-      | .from_ _ t items => items.any (staleItem g t)
+      | .from_ _ chain items => items.any (staleItem g (chain.headD 0))
       | _ => false)
 
 end Ioflo.Imports
